@@ -312,6 +312,66 @@ fn hash_rows(rep: &mut Report) {
             }
         }
     }
+    // payloads of (dynamic) size zero still hash something: a length prefix, a string terminator, whatever a
+    // hand-written impl feeds the hasher
+    {
+        #[derive(PartialEq, Eq, Clone, Copy, Debug)]
+        struct Marker;
+        impl Hash for Marker {
+            fn hash<S: Hasher>(&self, s: &mut S) {
+                s.write_u32(0xC0FFEE);
+            }
+        }
+        macro_rules! same {
+            ($what:expr, $arc:expr) => {{
+                rep.evals += 1;
+                let a = $arc;
+                if hv(&a) != hv(&*a) {
+                    rep.bad(concat!("Hash of a handle differs from the value's: ", $what), String::new());
+                }
+            }};
+        }
+        same!("Arc<str> (empty)", Arc::<str>::from(""));
+        same!("Arc<str>", Arc::<str>::from("ab"));
+        same!("Arc<[u8]> (empty)", Arc::<[u8]>::from(Vec::<u8>::new()));
+        same!("Arc<[u8]>", Arc::<[u8]>::from(vec![1u8, 2]));
+        same!("Arc<[u32; 0]>", Arc::new([0u32; 0]));
+        same!("Arc<()>", Arc::new(()));
+        same!("Arc<[(); 3]>", Arc::new([(); 3]));
+        same!("Arc<[()]> (three units)", Arc::<[()]>::from(vec![(), (), ()]));
+        same!("Arc<zero-sized type with its own Hash>", Arc::new(Marker));
+        same!("Arc<HeaderSlice<HeaderWithLength<u8>, [u8]>> (empty slice)",
+              Arc::from_header_and_slice(HeaderWithLength::new(1u8, 0), &[] as &[u8]));
+        same!("Arc<HeaderSlice<(), [()]>> (all zero-sized)", Arc::from_header_and_slice((), &[(), ()]));
+        {
+            rep.evals += 1;
+            let t: ThinArc<u8, u8> = ThinArc::from_header_and_slice(1, &[]);
+            if hv(&t) != hv(&*t) {
+                rep.bad("Hash of a handle differs from the value's: ThinArc (empty slice)", String::new());
+            }
+            let t: ThinArc<(), ()> = ThinArc::from_header_and_slice((), &[(), ()]);
+            if hv(&t) != hv(&*t) {
+                rep.bad("Hash of a handle differs from the value's: ThinArc<(), ()>", String::new());
+            }
+        }
+        let mut es: HashMap<Arc<str>, u8> = HashMap::new();
+        es.insert(Arc::from(""), 1);
+        es.insert(Arc::from("x"), 2);
+        if es.get("") != Some(&1) || es.get("x") != Some(&2) {
+            rep.bad("Arc<str> as HashMap key through Borrow: lookup of the empty string fails", String::new());
+        }
+        let mut el: HashMap<Arc<[u8]>, u8> = HashMap::new();
+        el.insert(Arc::from(Vec::<u8>::new()), 1);
+        el.insert(Arc::from(vec![7u8]), 2);
+        if el.get(&[][..]) != Some(&1) || el.get(&[7u8][..]) != Some(&2) {
+            rep.bad("Arc<[u8]> as HashMap key through Borrow: lookup of the empty slice fails", String::new());
+        }
+        let mut em: HashMap<Arc<Marker>, u8> = HashMap::new();
+        em.insert(Arc::new(Marker), 1);
+        if em.get(&Marker) != Some(&1) {
+            rep.bad("Arc<zero-sized key> as HashMap key through Borrow: lookup by value fails", String::new());
+        }
+    }
     let mut k = 0;
     for a in 1..=3u8 {
         for b in 1..=3u8 {
